@@ -852,6 +852,26 @@ func runInstance(ld *sym.Loaded, spec *Spec, rs *RunSpec, args []int64, known ma
 				}
 				continue
 			}
+			if r.Status == "sat" && q.kind == "side" && (q.id == "fdivzero" || q.id == "math-domain") && pol == "" {
+				// a division by zero / a function outside its domain is reachable in exact arithmetic: that is where
+				// the real code produces Inf or NaN. If a value the harness observes is not finite when the model
+				// is run natively, the "state stays finite" clause is violated (confirmed); otherwise inconclusive
+				vals := modelValues(e, r.Values)
+				fails, _, _, rerr := nativeReplay(spec, rs.Harness, toInts(args), vals, knownList(known))
+				nf := ""
+				for _, f := range fails {
+					if strings.HasPrefix(f, "nonfinite:") {
+						nf = strings.TrimPrefix(f, "nonfinite:")
+						break
+					}
+				}
+				if rerr == nil && nf != "" {
+					oid := spec.Property + ".state_stays_finite." + nf
+					p := storeReplay(spec.Property, oid, rs.Harness, toInts(args), vals, knownList(known))
+					res.violations = append(res.violations, violation{obl: oid, replay: p})
+					continue
+				}
+			}
 			if r.Status == "sat" && strings.HasPrefix(pol, "obligation:") {
 				oid := strings.TrimPrefix(pol, "obligation:")
 				vals := modelValues(e, r.Values)
